@@ -2,7 +2,7 @@
 // while the simulation goroutine indexes it when it processes a unified multi-GPU kernel launch.
 //
 //	mkdir <tree>/amd/driver/c12devicesdemo && cp c12_devices_race_test.go <tree>/amd/driver/c12devicesdemo/
-//	go test -race -count=1 ./amd/driver/c12devicesdemo/        # reports "DATA RACE" (known finding, not repaired)
+//	go test -race -count=1 ./amd/driver/c12devicesdemo/        # reported "DATA RACE" before the repair of the device table
 package c12devicesdemo
 
 import (
